@@ -63,7 +63,7 @@ def governs (enforceNew : Bool) (fr : Content) (d : RuleDefault) : Tree :=
       else match afind old fr with
         | none => fallback
         | some v =>                                           -- override under the old, renamed name governs
-          if (parseValue v).print = "rule:".toList ++ d.name  -- … unless it is merely the alias rule:<new name>
+          if (parseValue v).print = rulePrefix ++ d.name  -- … unless it is merely the alias rule:<new name>
           then fallback else parseValue v
 
 /-! ### Histories (C10 / C12) -/
